@@ -53,7 +53,7 @@ def post_unchanged(path, u, tag='self'):
     path.oblige('post/%s-unchanged-on-raise' % tag, 'post', And(s == u.items0, S == u.seen0))
 
 
-def _unit(qual, body):
+def _unit(qual, body, extra_axioms=None):
     """body(path) -> (env, loops_extra, finish)"""
     def make():
         def harness(path):
@@ -61,7 +61,7 @@ def _unit(qual, body):
             loops = {'globals': lib.builtins()}
             loops.update(extra or {})
             return env, loops, finish
-        return axioms(), harness
+        return axioms() + (extra_axioms() if extra_axioms else []), harness
     return make
 
 
@@ -299,6 +299,30 @@ def _ms_ior(path):
     return {'self': u, 'it': it}, {0: spec}, finish
 
 
+def _ms_isub(path):
+    """MutableSet.__isub__(self, it) for `it is not self` (the aliased call `u -= u` takes the `self.clear()` branch: Unique has no
+    pop(), not modelled -- the contract used at the calls rejects it): every item of `it` is discarded, in the order given."""
+    from contracts.definitions import NameSeqArg
+    u = make_unique(path, methods=unique_methods_by_contract)
+    it = NameSeqArg(path, 'it')
+    xs = it.s
+
+    def inv(e, k):
+        # after k elements: the view is the fold of discard over the first k elements
+        return [('view', view(u)[0] == seqs.discard_fold(u.items0, xs, k))]
+    spec = LoopSpec(inv)
+    spec.havoc_objs = [u.fields['_items'], u.fields['_seen']]
+
+    def finish(path, env, outcome):
+        if outcome[0] != 'return':
+            path.oblige('post/no-exception', 'post', BoolVal(False))
+            return
+        path.oblige('post/returns-self', 'post', BoolVal(outcome[1] is u))
+        path.oblige('post/view', 'post', view(u)[0] == seqs.discard_fold(u.items0, xs, seqs.slen(xs)))
+        path.oblige('post/argument-unchanged', 'post', it.s == xs)
+    return {'self': u, 'it': it}, {0: spec}, finish
+
+
 def stdlib_path():
     import sysconfig
     import os
@@ -319,8 +343,9 @@ for _q, _b in (('add', _add), ('discard', _discard), ('replace', _replace), ('mo
 
 _SP = stdlib_path()
 if _SP:
-    for _q, _b in (('remove', _ms_remove), ('__ior__', _ms_ior)):
-        register(Unit('stdlib.MutableSet.' + _q, 'ABS:' + _SP, 'MutableSet.' + _q, _unit(_q, _b),
+    for _q, _b in (('remove', _ms_remove), ('__ior__', _ms_ior), ('__isub__', _ms_isub)):
+        register(Unit('stdlib.MutableSet.' + _q, 'ABS:' + _SP, 'MutableSet.' + _q,
+                      _unit(_q, _b, seqs.discard_axioms if _q == '__isub__' else None),
                       assumptions=['the stdlib mixin source of the interpreter that runs the library (3.12.1) is read like repository code',
                                    'contracts of Unique.add/discard/__contains__ (units tools.Unique.*)'],
                       linkage=[('concepts.tools.Unique.' + _q, None)]))
